@@ -212,6 +212,27 @@ func c17Plint(s []string) []string {
 	return r
 }
 
+// c17Plproj: `plproj n v0..v(n-1) qx qy qz = rx ry rz rn dq dmin` — Polyline.Project of an ARBITRARY query point (plint only
+// projects points that lie on the polyline).  dq = squared chord from q to the returned point, dmin = minimum over the segments of
+// UpdateMinDistance starting from infinity (the independent scan); rn = next vertex index.  A panic is the token PANIC:… (seeded change C17_3).
+func c17Plproj(s []string) []string {
+	n := pI(s[0])
+	if n < 2 || len(s) != 3*n+4 {
+		panic("c17: plproj argument count")
+	}
+	pts := c17Pts(s[1:], n)
+	q := c17Pts(s[3*n+1:], 1)[0]
+	pl := s2.Polyline(pts)
+	pr, rn := (&pl).Project(q)
+	// both distances as SQUARED CHORDS (angles have no resolution next to 180 degrees, where the squared chord saturates at 4)
+	dmin := s1.InfChordAngle()
+	for i := 1; i < n; i++ {
+		dmin, _ = s2.UpdateMinDistance(q, pts[i-1], pts[i], dmin)
+	}
+	r := c17PtToks(pr)
+	return append(r, is(rn), fx(float64(s2.ChordAngleBetweenPoints(q, pr))), fx(float64(dmin)))
+}
+
 // c17KnownF5: inputs of the KNOWN finding F5 (clause hemi-antipodal: both edges within 2^-20 rad of antipodal, crossing next to
 // their ends; Intersection returns the antipode). Emitted by every c16 shard so that the known class is exercised in every run.
 var c17KnownF5 = []string{
@@ -252,6 +273,7 @@ func init() {
 	replayers["pedist"] = c17Pedist
 	replayers["eedist"] = c17Eedist
 	replayers["plint"] = c17Plint
+	replayers["plproj"] = c17Plproj
 	generators["c16"] = genC16
 	generators["c17"] = genC17
 }
@@ -1236,6 +1258,38 @@ func (g *G) c17EmitPlint() {
 	args = append(args, c17PtToks(v...)...)
 	args = append(args, c17FsTok(fs))
 	g.emit("plint", args...)
+	// Project of arbitrary query points: far away, near the antipode of the polyline (within 1e-9 .. 1e-6 rad: squared chords
+	// saturate at 4), next to a vertex, generic
+	if n >= 2 {
+		nq := 1
+		if n <= 8 {
+			nq = 3
+		}
+		for j := 0; j < nq; j++ {
+			var q s2.Point
+			switch r.Intn(5) {
+			case 0, 1: // antipode of a vertex, moved by a tiny step
+				a := v[r.Intn(n)]
+				anti := s2.Point{Vector: a.Mul(-1)}
+				q = anti
+				if r.Bool() {
+					q = c17Move(anti, g.c17Tangent(anti), g.c17LogU(1e-12, 1e-6))
+				}
+			case 2:
+				a := v[r.Intn(n)]
+				q = c17Move(a, g.c17Tangent(a), g.c17LogU(1e-12, 1e-2))
+			default:
+				q = g.c17RandUnit()
+			}
+			if !c17ValidPt(q) {
+				continue
+			}
+			pa := []string{is(n)}
+			pa = append(pa, c17PtToks(v...)...)
+			pa = append(pa, c17PtToks(q)...)
+			g.emit("plproj", pa...)
+		}
+	}
 }
 
 func genC17(g *G) {
